@@ -122,8 +122,8 @@ pub fn run(run: &mut Run) -> PResult {
     // converted afresh, a immediately before b, and compared (thorough: every pair, in pass 2)
     let fresh_all = run.tier == crate::engine::Tier::Thorough && !run.is_twin();
     {
-        use rayon::prelude::*;
-        let bad = (0..65536usize).into_par_iter().find_map_first(|b| {
+        // one thread: a really is the conversion before b
+        let bad = (0..65536usize).find_map(|b| {
             for a in crate::engine::u16_partners(b as u16) {
                 let ra = HandRank::from(a);
                 let rb = HandRank::from(b as u16);
